@@ -17,6 +17,21 @@ pub enum Path {
     Parser,
 }
 
+/// how far a check judges a listener call
+#[derive(Clone, Copy, Debug, PartialEq, Eq)]
+pub enum Own {
+    No,
+    Full,
+    /// judge, but report only mismatches of these generic clauses
+    Only(&'static [&'static str]),
+}
+
+pub type Owns<'a> = &'a dyn Fn(&Call, &Snap) -> Own;
+
+pub fn owner_is(prop: &'static str) -> impl Fn(&Call, &Snap) -> Own {
+    move |c: &Call, _s: &Snap| if c.owner() == prop { Own::Full } else { Own::No }
+}
+
 /// C09 well-formedness of a snapshot
 pub fn wellformed(s: &Snap) -> Vec<(&'static str, String)> {
     let mut v = Vec::new();
@@ -179,6 +194,7 @@ pub fn record_state_features(cx: &mut Ctx, pre: &Snap) {
 pub fn judge_events(
     cx: &mut Ctx,
     prop: &str,
+    owns: Owns,
     pre: &Snap,
     evs: &[Ev],
     path: Path,
@@ -191,7 +207,14 @@ pub fn judge_events(
             Some(p) => p,
             None => break, // the call did not return: reported by the caller as a panic
         };
-        if ev.call.owner() == prop {
+        let mut own = owns(&ev.call, &cur);
+        if own != Own::No && wellformed(&cur).iter().any(|w| w.0 == "cursor-range" || w.0 == "margins-range" || w.0 == "geometry") {
+            // the reference semantics are only defined on well-formed pre-states; whatever call
+            // produced this one has been (or will be) reported by the check that owns it
+            cx.stats.count("steps_skipped_illformed_pre", 1);
+            own = Own::No;
+        }
+        if own != Own::No {
             judged += 1;
             let v = refsem::judge(&ev.call, &cur, post);
             let nontriv = refsem::nontrivial(&ev.call, &cur, post);
@@ -211,6 +234,11 @@ pub fn judge_events(
                 json!({"pre": cur.render(), "call": format!("{:?}", ev.call), "path": format!("{:?}", path), "post": post.render()})
             });
             for m in v.mismatches {
+                if let Own::Only(cl) = own {
+                    if !cl.contains(&m.clause) {
+                        continue;
+                    }
+                }
                 let case = mk_case();
                 cx.violation(Viol {
                     prop: prop.to_string(),
@@ -221,8 +249,12 @@ pub fn judge_events(
                     case,
                 });
             }
-            // the post-state of a judged step must be well-formed
+            // the post-state of a judged step must be well-formed (only what this step broke)
+            let pre_bad: Vec<&'static str> = wellformed(&cur).into_iter().map(|x| x.0).collect();
             for (cl, d) in wellformed(post) {
+                if pre_bad.contains(&cl) || matches!(own, Own::Only(_)) {
+                    continue;
+                }
                 let case = mk_case();
                 cx.violation(Viol {
                     prop: prop.to_string(),
@@ -239,10 +271,34 @@ pub fn judge_events(
     judged
 }
 
-/// A candidate: the call and the path it takes.
+/// A candidate: a short op sequence applied to a fork of the reached state.
 pub struct Cand {
-    pub call: Call,
-    pub path: Path,
+    pub ops: Vec<Op>,
+}
+
+impl Cand {
+    pub fn api(c: Call) -> Cand {
+        Cand { ops: vec![Op::Api(c)] }
+    }
+    /// the escape sequence that makes the parser deliver `c`, if any
+    pub fn seq(c: &Call) -> Option<Cand> {
+        c.to_seq().map(|s| Cand { ops: vec![Op::Feed(s)] })
+    }
+    pub fn both(c: Call) -> Vec<Cand> {
+        let mut v = Vec::new();
+        if let Some(s) = Cand::seq(&c) {
+            v.push(s);
+        }
+        v.push(Cand::api(c));
+        v
+    }
+    pub fn path(&self) -> Path {
+        if self.ops.iter().any(|o| matches!(o, Op::Feed(_) | Op::FeedBytes(_))) {
+            Path::Parser
+        } else {
+            Path::Api
+        }
+    }
 }
 
 /// Run the setup; returns the reached Sys (recording off) or None if it panicked / is ill-formed.
@@ -263,54 +319,61 @@ pub fn reach(cx: &mut Ctx, columns: u32, lines: u32, setup: &[Op]) -> Option<(Sy
 
 /// Fork `base` once per candidate and judge. `prop` = property id; a panic in the candidate is a
 /// violation of `prop` with clause `panic`.
-pub fn fan_out(cx: &mut Ctx, prop: &str, columns: u32, lines: u32, setup: &[Op], base: &Sys, pre: &Snap, cands: &[Cand]) {
+pub fn fan_out(cx: &mut Ctx, prop: &str, owns: Owns, columns: u32, lines: u32, setup: &[Op], base: &Sys, pre: &Snap, cands: &[Cand]) {
     record_state_features(cx, pre);
     cx.stats.geoms.insert(format!("{}x{}", columns, lines));
     for cand in cands {
-        let op = match cand.path {
-            Path::Api => Op::Api(cand.call.clone()),
-            Path::Parser => match cand.call.to_seq() {
-                Some(s) => Op::Feed(s),
-                None => continue,
-            },
-        };
+        let path = cand.path();
         let mk_case = || {
             let mut c = Case::new(prop, "step", columns, lines, PK::Chars);
             c.setup = setup.to_vec();
-            c.ops = vec![op.clone()];
+            c.ops = cand.ops.clone();
             c
         };
         let scr = base.fork_screen();
-        let mut sys = Sys::from_screen(scr, if cand.path == Path::Parser { PK::Chars } else { PK::None });
-        let r = sys.try_apply(&op);
-        let evs = sys.take_events();
-        let judged = judge_events(cx, prop, pre, &evs, cand.path, &mk_case);
-        if let Err(p) = r {
-            // which call was in flight?
-            let inflight = evs.iter().find(|e| e.post.is_none()).map(|e| e.call.clone());
-            let (kind, owner) = match &inflight {
-                Some(c) => (c.kind(), c.owner()),
-                None => ("feed", prop),
-            };
-            cx.stats.clause("panic-observed");
-            if owner == prop || inflight.is_none() {
-                cx.violation(Viol {
-                    prop: prop.to_string(),
-                    clause: "panic".into(),
-                    op: kind.to_string(),
-                    bucket: panic_sig(&p),
-                    detail: format!("panic '{}' at {} during {:?}", p.msg, p.loc, inflight),
-                    case: mk_case(),
-                });
+        let mut sys = Sys::from_screen(scr, if path == Path::Parser { PK::Chars } else { PK::None });
+        let mut r = Ok(());
+        for op in &cand.ops {
+            r = sys.try_apply(op);
+            if r.is_err() {
+                break;
             }
-        } else if judged == 0 && cand.path == Path::Parser {
+        }
+        let evs = sys.take_events();
+        let judged = judge_events(cx, prop, owns, pre, &evs, path, &mk_case);
+        if let Err(p) = r {
+            report_panic(cx, prop, owns, pre, &evs, &p, &mk_case);
+        } else if judged == 0 && path == Path::Parser {
             cx.stats.count("parser_candidates_without_owned_event", 1);
         }
     }
 }
 
+/// a panic while executing a candidate: a violation of `prop` if the call in flight is one the
+/// check judges (or the panic happened outside any listener call, i.e. in the parser itself)
+pub fn report_panic(cx: &mut Ctx, prop: &str, owns: Owns, pre: &Snap, evs: &[Ev], p: &crate::sys::PanicInfo, mk_case: &dyn Fn() -> Case) {
+    let inflight = evs.iter().find(|e| e.post.is_none()).map(|e| e.call.clone());
+    // state just before the call in flight
+    let before = evs.iter().rev().filter_map(|e| e.post.as_ref()).next().unwrap_or(pre);
+    let (kind, mine) = match &inflight {
+        Some(c) => (c.kind(), owns(c, before) != Own::No),
+        None => ("feed", true),
+    };
+    cx.stats.clause("panic-observed");
+    if mine {
+        cx.violation(Viol {
+            prop: prop.to_string(),
+            clause: "panic".into(),
+            op: kind.to_string(),
+            bucket: panic_sig(p),
+            detail: format!("panic '{}' at {} during {:?} from state\n{}", p.msg, p.loc, inflight, before.render()),
+            case: mk_case(),
+        });
+    }
+}
+
 /// Replay a step case verbosely (used by `replay` for all engine-based checks).
-pub fn replay_step(cx: &mut Ctx, prop: &str, case: &Case) {
+pub fn replay_step(cx: &mut Ctx, prop: &str, owns: Owns, case: &Case) {
     let mut sys = Sys::new(case.columns, case.lines, PK::Chars);
     sys.set_recording(false, false);
     if let Err((i, p)) = run_ops(&mut sys, &case.setup) {
@@ -334,18 +397,9 @@ pub fn replay_step(cx: &mut Ctx, prop: &str, case: &Case) {
     let evs = s2.take_events();
     let c2 = case.clone();
     let mk = move || c2.clone();
-    judge_events(cx, prop, &pre, &evs, if is_feed { Path::Parser } else { Path::Api }, &mk);
+    judge_events(cx, prop, owns, &pre, &evs, if is_feed { Path::Parser } else { Path::Api }, &mk);
     if let Err(p) = res {
-        let inflight = evs.iter().find(|e| e.post.is_none()).map(|e| e.call.clone());
-        let kind = inflight.as_ref().map(|c| c.kind()).unwrap_or("feed");
-        cx.violation(Viol {
-            prop: prop.to_string(),
-            clause: "panic".into(),
-            op: kind.to_string(),
-            bucket: panic_sig(&p),
-            detail: format!("panic '{}' at {} during {:?}", p.msg, p.loc, inflight),
-            case: case.clone(),
-        });
+        report_panic(cx, prop, owns, &pre, &evs, &p, &mk);
     }
     if cx.verbose {
         println!("state after the judged ops:\n{}", snapshot(&s2.t().scr).render());
